@@ -29,10 +29,41 @@ Definition lower_ascii (c : ascii) : ascii :=
   let n := N_of_ascii c in
   if (N.leb 65 n && N.leb n 90)%bool then ascii_of_N (n + 32) else c.
 
+(** second byte of a two-byte UTF-8 sequence C3 xx that encodes U+00C0..U+00DE except U+00D7 (the
+    upper-case letters of the Latin-1 supplement) *)
+Definition latin1_upper (d : ascii) : bool :=
+  let n := N_of_ascii d in
+  (N.leb 128 n && N.leb n 158 && negb (N.eqb n 151))%bool.
+
+(** strings.ToLower on texts whose code points are below U+0100 ([text_in_model]): A-Z, and the
+    Latin-1 supplement letters U+00C0..U+00DE (except the multiplication sign), to which Go adds 32. *)
 Fixpoint lower (s : string) : string :=
   match s with
   | EmptyString => EmptyString
-  | String c t => String (lower_ascii c) (lower t)
+  | String c t =>
+      match t with
+      | String d t' =>
+          if (N.eqb (N_of_ascii c) 195 && latin1_upper d)%bool
+          then String c (String (ascii_of_N (N_of_ascii d + 32)) (lower t'))
+          else String (lower_ascii c) (lower t)
+      | EmptyString => String (lower_ascii c) EmptyString
+      end
+  end.
+
+(** the texts for which [lower] is strings.ToLower: valid UTF-8 with code points below U+0100
+    (ASCII bytes, or a lead byte C2/C3 followed by a continuation byte) *)
+Fixpoint text_in_model (s : string) : bool :=
+  match s with
+  | EmptyString => true
+  | String c t =>
+      let n := N_of_ascii c in
+      if N.ltb n 128 then text_in_model t
+      else if (N.eqb n 194 || N.eqb n 195)%bool then
+        match t with
+        | String d t' => let m := N_of_ascii d in (N.leb 128 m && N.leb m 191 && text_in_model t')%bool
+        | EmptyString => false
+        end
+      else false
   end.
 
 Fixpoint is_prefix (p s : string) : bool :=
@@ -140,7 +171,10 @@ Definition default_match (text : string) (toks : list string) : bool :=
 
 (** * Nodes, arguments, results *)
 
-Inductive sval := SInt (z : Z) | SStr (s : string).
+(** the value of a sort field: signed, unsigned, float, string (getSort's four comparison functions).
+    A float is represented by its code in an order-isomorphic image of the non-NaN float64s in Z
+    (-0 and +0 identified; the harness computes the code, NaN is outside the model). *)
+Inductive sval := SInt (z : Z) | SUint (z : Z) | SFloat (code : Z) | SStr (s : string).
 
 Record node := mk_node {
   n_key : string;                       (* fmt.Sprintf("%v", key field) *)
@@ -157,7 +191,8 @@ Record pargs := mk_args {
   a_ftext : option string;
   a_ffields : option (list string);
   a_sortby : option string;
-  a_desc : bool                         (* sortOrder given and = desc *)
+  a_desc : bool;                        (* sortOrder given and = desc *)
+  a_ftype : option string               (* filterType: name of a custom FilterFunc *)
 }.
 
 (** the registered filter / sort fields of the paginated field *)
@@ -174,10 +209,12 @@ Record ffield := mk_ff {
 Record config := mk_cfg {
   cfg_ff : list ffield;
   cfg_sf : list string;
-  cfg_use_batch : bool   (* what ShouldUseBatchFunc(ctx) answers for the fallback fields *)
+  cfg_use_batch : bool;  (* what ShouldUseBatchFunc(ctx) answers for the fallback fields *)
+  (* FilterFunc(name, tokenizeFilterText, filterFunc): user code, any pair of functions *)
+  cfg_customs : list (string * ((string -> list string) * (string -> list string -> bool)))
 }.
 
-Inductive perr := ErrNegative | ErrBoth | ErrUnknownSort.
+Inductive perr := ErrNegative | ErrBoth | ErrUnknownSort | ErrNoTotalFunc.
 
 Record edge := mk_edge { e_node : node; e_cursor : string }.
 
@@ -199,12 +236,41 @@ Definition selected_fields (cfg : config) (a : pargs) : list ffield :=
   | None => cfg_ff cfg
   end.
 
-Definition field_matches (toks : list string) (n : node) (f : ffield) : bool :=
-  default_match (lookup_def EmptyString (ff_attr f) (n_texts n)) toks.
+Fixpoint lookup_custom {A} (k : string) (l : list (string * A)) : option A :=
+  match l with
+  | [] => None
+  | (k', v) :: t => if String.eqb k k' then Some v else lookup_custom k t
+  end.
+
+(** the search tokens: default tokeniser without filterType, the registered tokeniser with one, none
+    (nil) for a filterType nobody registered *)
+Definition search_tokens (cfg : config) (a : pargs) (text : string) : list string :=
+  match a_ftype a with
+  | None => tokens text
+  | Some ft => match lookup_custom ft (cfg_customs cfg) with
+               | Some (tk, _) => tk text
+               | None => []
+               end
+  end.
+
+(** how a field text is matched: DefaultFilterFunc, the registered filterFunc, or never *)
+Definition match_fn (cfg : config) (a : pargs) : string -> list string -> bool :=
+  match a_ftype a with
+  | None => default_match
+  | Some ft => match lookup_custom ft (cfg_customs cfg) with
+               | Some (_, m) => m
+               | None => fun _ _ => false
+               end
+  end.
+
+Definition field_matches (mf : string -> list string -> bool) (toks : list string) (n : node)
+           (f : ffield) : bool :=
+  mf (lookup_def EmptyString (ff_attr f) (n_texts n)) toks.
 
 (** checkFilters: some field of the group matches *)
-Definition keep_node (toks : list string) (fields : list ffield) (n : node) : bool :=
-  existsb (field_matches toks n) fields.
+Definition keep_node (mf : string -> list string -> bool) (toks : list string) (fields : list ffield)
+           (n : node) : bool :=
+  existsb (field_matches mf toks n) fields.
 
 (** which of the three runners of applyTextFilter resolves a field:
     Batch && UseBatchFunc(ctx) -> applyBatchTextFilter; else Expensive -> ...NotBatchedExpensive;
@@ -232,7 +298,7 @@ Definition node_filter (cfg : config) (a : pargs) : node -> bool :=
   match a_ftext a with
   | None => fun _ => true
   | Some EmptyString => fun _ => true
-  | Some t => keep_node (tokens t) (selected_fields cfg a)
+  | Some t => keep_node (match_fn cfg a) (search_tokens cfg a t) (selected_fields cfg a)
   end.
 
 (** applyTextFilter as written: three keep-arrays, one per runner, or-ed together *)
@@ -241,11 +307,12 @@ Definition apply_text_filter (cfg : config) (l : list node) (a : pargs) : list n
   | None => l
   | Some EmptyString => l
   | Some t =>
-      let toks := tokens t in
+      let toks := search_tokens cfg a t in
+      let mf := match_fn cfg a in
       let sel := selected_fields cfg a in
-      let keep_plain := map (keep_node toks (group cfg RPlain sel)) l in
-      let keep_expensive := map (keep_node toks (group cfg RExpensive sel)) l in
-      let keep_batch := map (keep_node toks (group cfg RBatch sel)) l in
+      let keep_plain := map (keep_node mf toks (group cfg RPlain sel)) l in
+      let keep_expensive := map (keep_node mf toks (group cfg RExpensive sel)) l in
+      let keep_batch := map (keep_node mf toks (group cfg RBatch sel)) l in
       let keep := map (fun x => (fst (fst x) || snd x || snd (fst x))%bool)
                       (combine (combine keep_plain keep_expensive) keep_batch) in
       map fst (filter snd (combine l keep))
@@ -263,6 +330,8 @@ Definition key_ltb (a b : skey) : bool :=
 Definition sort_key (f : string) (n : node) : skey :=
   match lookup_def (SInt 0) f (n_sorts n) with
   | SInt z => (z, EmptyString)
+  | SUint z => (z, EmptyString)
+  | SFloat c => (c, EmptyString)
   | SStr s => (0%Z, lower s)
   end.
 
@@ -437,6 +506,55 @@ Section Enc.
   Definition get_connection := get_connection_with apply_cursors.
   Definition get_connection_orig := get_connection_with apply_cursors_orig.
 
+  (** * Externally managed connections: the resolver embeds PaginationArgs and returns the page, a
+      PaginationInfo and PostProcessOptions (getConnection with IsExternallyManaged) *)
+
+  Record ext_info := mk_ext {
+    ei_total : option Z;          (* TotalCountFunc(); None = nil func *)
+    ei_next : bool;
+    ei_prev : bool;
+    ei_pages : list string;
+    ei_apply_filter : bool;       (* PostProcessOptions.ApplyTextFilter *)
+    ei_set_page_info : bool       (* PostProcessOptions.SetPageInfo *)
+  }.
+
+  Definition get_connection_ext (cfg : config) (nodes : list node) (x : ext_info) (a : pargs) : conn + perr :=
+    match nodes with
+    | [] => inl empty_conn
+    | _ =>
+        let nodes1 := if ei_apply_filter x then apply_text_filter cfg nodes a else nodes in
+        let edges := nodes_to_edges nodes1 in
+        if ei_set_page_info x then
+          match paginate_manually edges a with
+          | inr e => inr e
+          | inl (es, next, prev) =>
+              let '(s, e) := set_cursors es in
+              inl (mk_conn (Z.of_nat (List.length nodes1)) es next prev s e (pages_from_edges edges (limit a)))
+          end
+        else
+          match ei_total x with
+          | None => inr ErrNoTotalFunc
+          | Some t =>
+              let '(s, e) := set_cursors edges in
+              inl (mk_conn t edges (ei_next x) (ei_prev x) s e (ei_pages x))
+          end
+    end.
+
+  (** ManualPaginationWithFallback: the switch picks the thunder-managed fallback resolver or the manual
+      one; both are built from the same filter / sort field and FilterFunc options (as repaired by
+      patches/C11-fix-2.patch) *)
+  Definition get_connection_dual (use_fallback : bool) (cfg : config) (l : list node) (x : ext_info)
+             (a : pargs) : conn + perr :=
+    if use_fallback then get_connection cfg l a else get_connection_ext cfg l x a.
+
+  (** the code as found: the fallback field is built without the FilterFunc options *)
+  Definition drop_customs (cfg : config) : config :=
+    mk_cfg (cfg_ff cfg) (cfg_sf cfg) (cfg_use_batch cfg) [].
+
+  Definition get_connection_dual_orig (use_fallback : bool) (cfg : config) (l : list node) (x : ext_info)
+             (a : pargs) : conn + perr :=
+    if use_fallback then get_connection (drop_customs cfg) l a else get_connection_ext cfg l x a.
+
   (** totalCount *)
   Definition total_count (cfg : config) (l : list node) (a : pargs) : Z :=
     Z.of_nat (List.length (apply_text_filter cfg l a)).
@@ -444,16 +562,16 @@ Section Enc.
   (** * Walks: follow endCursor with first = k (startCursor with last = k) *)
 
   Definition with_first_after (a : pargs) (k : Z) (after : option string) : pargs :=
-    mk_args (Some k) None after None (a_ftext a) (a_ffields a) (a_sortby a) (a_desc a).
+    mk_args (Some k) None after None (a_ftext a) (a_ffields a) (a_sortby a) (a_desc a) (a_ftype a).
 
   Definition with_last_before (a : pargs) (k : Z) (before : option string) : pargs :=
-    mk_args None (Some k) None before (a_ftext a) (a_ffields a) (a_sortby a) (a_desc a).
+    mk_args None (Some k) None before (a_ftext a) (a_ffields a) (a_sortby a) (a_desc a) (a_ftype a).
 
   Definition set_after (a : pargs) (o : option string) : pargs :=
-    mk_args (a_first a) (a_last a) o (a_before a) (a_ftext a) (a_ffields a) (a_sortby a) (a_desc a).
+    mk_args (a_first a) (a_last a) o (a_before a) (a_ftext a) (a_ffields a) (a_sortby a) (a_desc a) (a_ftype a).
 
   Definition set_before (a : pargs) (o : option string) : pargs :=
-    mk_args (a_first a) (a_last a) (a_after a) o (a_ftext a) (a_ffields a) (a_sortby a) (a_desc a).
+    mk_args (a_first a) (a_last a) (a_after a) o (a_ftext a) (a_ffields a) (a_sortby a) (a_desc a) (a_ftype a).
 
   (** result: the pages in the order visited, and whether the walk ended by itself
       (hasNextPage = false or an error) rather than by running out of fuel *)
@@ -537,6 +655,23 @@ Fixpoint base64 (s : string) : string :=
               (String (b64_char c5 c4 c3 c2 c1 c0) (base64 r))))
   end.
 
+(** * The custom FilterFuncs the harness registers (user code; the theorems hold for any) *)
+
+Fixpoint split_on (sep : ascii) (acc s : string) : list string :=
+  match s with
+  | EmptyString => [unrev acc]
+  | String c t => if Ascii.eqb c sep then unrev acc :: split_on sep EmptyString t
+                  else split_on sep (String c acc) t
+  end.
+
+(** "prefix": tokens = strings.Split(text, ","); a field matches when a non-empty token is a
+    (case-sensitive) prefix of it.  "exact": one token, the whole text; match = equality. *)
+Definition c11_customs : list (string * ((string -> list string) * (string -> list string -> bool))) :=
+  [("prefix", (split_on ","%char EmptyString,
+               fun text toks => existsb (fun t => negb (String.eqb t EmptyString) && is_prefix t text)%bool toks));
+   ("exact", (fun t => [t],
+              fun text toks => match toks with [t] => String.eqb text t | _ => false end))].
+
 (** * Correspondence with the implementation *)
 
 Inductive obs :=
@@ -544,7 +679,7 @@ Inductive obs :=
 | ObsErr (e : nat).       (* 1 negative first/last, 2 first and last, 3 unknown sort field, 9 anything else *)
 
 Definition err_code (e : perr) : nat :=
-  match e with ErrNegative => 1 | ErrBoth => 2 | ErrUnknownSort => 3 end.
+  match e with ErrNegative => 1 | ErrBoth => 2 | ErrUnknownSort => 3 | ErrNoTotalFunc => 4 end.
 
 Definition obs_of (r : conn + perr) : obs :=
   match r with
@@ -571,10 +706,16 @@ Inductive case_kind :=
 | KWalkF (k : Z)          (* walk forward with first = k *)
 | KWalkB (k : Z).         (* walk backward with last = k *)
 
+Inductive ext_mode :=
+| XNone                                  (* thunder-managed field *)
+| XManual (x : ext_info)                 (* externally managed field *)
+| XDual (use_fallback : bool) (x : ext_info).  (* ManualPaginationWithFallback *)
+
 Record case := mk_case {
   cs_cfg : config;
   cs_nodes : list node;
   cs_args : pargs;
+  cs_ext : ext_mode;
   cs_kind : case_kind;
   cs_obs : list obs        (* the pages the implementation returned, in the order visited *)
 }.
@@ -584,7 +725,11 @@ Record case := mk_case {
 Definition check_case (c : case) : list nat :=
   match cs_kind c with
   | KPage =>
-      let m := obs_of (get_connection base64 (cs_cfg c) (cs_nodes c) (cs_args c)) in
+      let m := obs_of (match cs_ext c with
+                       | XNone => get_connection base64 (cs_cfg c) (cs_nodes c) (cs_args c)
+                       | XManual x => get_connection_ext base64 (cs_cfg c) (cs_nodes c) x (cs_args c)
+                       | XDual fb x => get_connection_dual base64 fb (cs_cfg c) (cs_nodes c) x (cs_args c)
+                       end) in
       match cs_obs c with
       | [o] => if obs_eqb m o then []
                else match m, o with ObsConn _, ObsConn _ => [1] | _, _ => [2] end
